@@ -20,6 +20,7 @@ LEVEL_TEXT = (
     "mpmath at 80 digits (a float64 Van Loan reference is itself wrong at small h / high q); (c) exponential priors through the public "
     "constructors vs the same reference with the drift built from the documented SDE; (d) t(h2) o t(h1) = t(h1+h2); (e) noise scales "
     "linearly with calibrated and base scale."
+    ' (f) the highest 0..2 coefficients of an exponential prior may be declared as diffuse derivatives of the constructor - the SDE must not depend on how they were declared.'
 )
 LEVEL_NOTE = "Trusted: mpmath expm at 80 digits; closed forms for the IWP. float64 tolerance 1e-10 x (1 + #doublings), float32 2e-4 x (1 + #doublings)."
 RULE = (
